@@ -123,4 +123,62 @@ ImplMatches(a, b) == /\ ImplCmp(a, b) = Cmp(a, b)
                      /\ ImplCmpNew(a, b) = Cmp(a, b)
                      /\ ImplSubNoUnderflow(a, b)
 ImplAddMatches(a, n) == n \in Addend => ImplAdd(a, n) = [ok |-> Add(a, n)]
+
+----------------------------------------------------------------------------
+(* Placing a serial on the unbounded time line next to a reference time.   *)
+(*                                                                          *)
+(* A time is a natural number; its serial is its value modulo 2^BITS, its   *)
+(* era the quotient.  Place(ref, ts) is the unique time t with              *)
+(* t = ts (mod 2^BITS) and |t - ref| < 2^(BITS-1); at distance exactly      *)
+(* 2^(BITS-1) RFC 1982 leaves the direction undefined (PlaceDefined is      *)
+(* false), and a time before 0 (the epoch) is not representable.            *)
+SignedDiff(r, ts) == LET d == (ts - r) % M IN IF d < H THEN d ELSE d - M
+PlaceDefined(ref, ts) == (ts - ref) % M # H
+Place(ref, ts) == ref + SignedDiff(ref % M, ts)
+PlaceConstrained(ref, ts) == PlaceDefined(ref, ts) /\ Place(ref, ts) >= 0
+
+(* Transcription of `Timestamp::to_system_time(self, reference)` in         *)
+(* src/rdata/dnssec.rs (k = era of the reference, rmod = its serial):       *)
+(*   if ts < rmod { if rmod - ts <= 2^31 { ts + k*2^32 }                    *)
+(*                  else { ts + (k+1)*2^32 } }                               *)
+(*   else { if ts - rmod < 2^31 { ts + k*2^32 }                             *)
+(*          else { let k = if k > 0 { k - 1 } else { k }; ts + k*2^32 } }   *)
+ImplPlace(ref, ts) ==
+  LET k == ref \div M
+      rmod == ref % M
+  IN IF ts < rmod
+     THEN IF rmod - ts <= H THEN ts + k * M ELSE ts + (k + 1) * M
+     ELSE IF ts - rmod < H THEN ts + k * M
+          ELSE ts + (IF k > 0 THEN k - 1 ELSE k) * M
+
+(* Laws of the placement (checked by MC_SerialPlace.tla):                   *)
+\* the placed time carries the serial and lies within half a cycle of ref
+LawPlaceNear(ref, ts) ==
+  PlaceDefined(ref, ts) =>
+     /\ Place(ref, ts) % M = ts
+     /\ Place(ref, ts) - ref \in -(H - 1) .. (H - 1)
+\* placing agrees with comparing against the reference's own serial
+LawPlaceVsRef(ref, ts) ==
+  PlaceDefined(ref, ts) =>
+     /\ (Place(ref, ts) > ref <=> Cmp(ref % M, ts) = "LT")
+     /\ (Place(ref, ts) < ref <=> Cmp(ref % M, ts) = "GT")
+     /\ (Place(ref, ts) = ref <=> Cmp(ref % M, ts) = "EQ")
+\* order embedding: two serials placed from the same reference sort like
+\* RFC 1982 compares them, whenever the placed times are less than half a
+\* cycle apart (otherwise RFC 1982 itself has no opinion or the opposite one)
+LawPlaceOrder(ref, x, y) ==
+  (PlaceDefined(ref, x) /\ PlaceDefined(ref, y)
+     /\ Place(ref, x) - Place(ref, y) \in -(H - 1) .. (H - 1)) =>
+        /\ (Place(ref, x) < Place(ref, y) <=> Cmp(x, y) = "LT")
+        /\ (Place(ref, x) = Place(ref, y) <=> Cmp(x, y) = "EQ")
+\* shifting reference and serial by the same amount shifts the placed time
+LawPlaceShift(ref, ts, n) ==
+  PlaceDefined(ref, ts) =>
+     /\ PlaceDefined(ref + n, Add(ts, n))
+     /\ Place(ref + n, Add(ts, n)) = Place(ref, ts) + n
+\* the library's branch structure computes Place wherever it is constrained,
+\* and always returns a time that carries the serial
+ImplPlaceMatches(ref, ts) ==
+  /\ ImplPlace(ref, ts) % M = ts
+  /\ PlaceConstrained(ref, ts) => ImplPlace(ref, ts) = Place(ref, ts)
 =============================================================================
